@@ -12,7 +12,38 @@ def operands():
     return [('int', 3), ('int2', 5), ('zero', 0), ('float', 3.0), ('near', 3.0005), ('far', 3.5), ('nan', float('nan')),
             ('bool', True), ('str', 'Hello, World!'), ('str_case', 'hello world'), ('str2', 'abc'), ('empty', ''),
             ('list', [1, 2]), ('list2', [1, 2, 3]), ('tuple', (1, 2)), ('dict', {'a': 1}), ('set', {1}), ('set2', {1, 2}),
-            ('none', None), ('nested', [1.0, (2, 'X')]), ('nested2', [1.0004, (2, 'x')])]
+            ('none', None), ('nested', [1.0, (2, 'X')]), ('nested2', [1.0004, (2, 'x')]), ('money', Money(3)),
+            ('huge', 10 ** 400)]
+
+
+class Money:
+    """student-style value object whose comparisons assume the other side is Money too"""
+    def __init__(self, amount):
+        self.amount = amount
+
+    def __eq__(self, other):
+        return self.amount == other.amount
+
+    def __lt__(self, other):
+        return self.amount < other.amount
+
+    def __le__(self, other):
+        return self.amount <= other.amount
+
+    def __gt__(self, other):
+        return self.amount > other.amount
+
+    def __ge__(self, other):
+        return self.amount >= other.amount
+
+    def __contains__(self, item):
+        return item.amount == self.amount
+
+    def __hash__(self):
+        return hash(self.amount)
+
+    def __repr__(self):
+        return 'Money(%r)' % self.amount
 
 
 def holds(fn):
@@ -44,6 +75,13 @@ def relations():
 
 
 def ref_equal(a, b, delta=0.001, exact=False):
+    try:
+        return _ref_equal(a, b, delta, exact)
+    except Exception:
+        return False          # an equality that cannot be evaluated does not hold
+
+
+def _ref_equal(a, b, delta=0.001, exact=False):
     """eq_spec typed from the statement: symmetric; tolerance when either is a float and both are numbers;
     normalised strings unless exact; element-wise for list/tuple/set/dict"""
     num = (int, float)
@@ -51,7 +89,10 @@ def ref_equal(a, b, delta=0.001, exact=False):
         return type(a) is type(b) and a == b if (isinstance(a, bool) and isinstance(b, bool)) else a == b
     if isinstance(a, num) and isinstance(b, num):
         if isinstance(a, float) or isinstance(b, float):
-            return abs(a - b) < delta
+            try:
+                return abs(a - b) < delta
+            except OverflowError:
+                return False
         return a == b
     if isinstance(a, str) and isinstance(b, str):
         if exact:
@@ -83,6 +124,8 @@ def proxy_of(value):
         report.contextualize(Submission(files={'answer.py': 'pass'}, main_file='answer.py', main_code='pass'))
         _SB['sb'] = Sandbox(report=report)
     sb = _SB['sb']
+    if isinstance(value, Money):
+        sb.run("class Money:\n    def __init__(self, amount):\n        self.amount = amount\n    def __eq__(self, o):\n        return self.amount == o.amount\n    def __lt__(self, o):\n        return self.amount < o.amount\n    def __le__(self, o):\n        return self.amount <= o.amount\n    def __gt__(self, o):\n        return self.amount > o.amount\n    def __ge__(self, o):\n        return self.amount >= o.amount\n    def __contains__(self, i):\n        return i.amount == self.amount\n    def __hash__(self):\n        return hash(self.amount)\n", filename='answer.py')
     expr = "float('nan')" if isinstance(value, float) and value != value else repr(value)
     res = sb.evaluate(expr)
     return res
@@ -160,6 +203,9 @@ def bounded(arg):
         for exact in (False,):
             want = ref_equal(a, b)
             want_sym = ref_equal(b, a)
+            eq_evaluable = holds(lambda: a == b)[1] and holds(lambda: b == a)[1]
+            if isinstance(a, (int, float)) and isinstance(b, (int, float)):
+                eq_evaluable = eq_evaluable and holds(lambda: abs(a - b) < 0.001)[1]
             for wrap in wraps2:
                 got, exc = run_assert('assert_equal', (a, b), wrap)
                 gotn, _ = run_assert('assert_not_equal', (a, b), wrap)
@@ -174,7 +220,7 @@ def bounded(arg):
                     if wrap != (False, False):
                         kind += ' [proxied operand]'
                     record(kind, 'assert_equal', 'assert_equal(%s, %s) wrap=%s' % (na, nb, wrap), expect, got)
-                if got in ('silent', 'failing') and gotn == got:
+                if eq_evaluable and got in ('silent', 'failing') and gotn == got:
                     record('agrees with its negation', 'assert_equal', 'assert_equal/assert_not_equal(%s, %s) wrap=%s' % (na, nb, wrap),
                            'opposite outcomes', got)
             g1, _ = run_assert('assert_equal', (a, b), (False, False))
